@@ -642,8 +642,9 @@ def register(g):
             return [shape[k:k + 100] for k in range(0, len(shape), 100)]
         text = 'namespace Rj.Generated\n'
         boss_src = src
-        for name, lean in (('confirm_actions', 'confirmActionsShape'), ('copy_entry', 'copyEntryShape'), ('copy_file', 'copyFileShape'), ('exec_command', 'execCommandShape')):
-            src = strip_comments(read('src/doer.rs')) if name == 'exec_command' else boss_src
+        for name, lean in (('confirm_actions', 'confirmActionsShape'), ('copy_entry', 'copyEntryShape'), ('copy_file', 'copyFileShape'), ('exec_command', 'execCommandShape'),
+                           ('filter_func', 'filterFuncShape'), ('handle_get_entries', 'handleGetEntriesShape')):
+            src = strip_comments(read('src/doer.rs')) if name in ('exec_command', 'filter_func', 'handle_get_entries') else boss_src
             text += f'/-- `{name}`, normalised (see extract_more.py `confirm_shape`) -/\ndef {lean} : List String := [\n  ' + ',\n  '.join(lean_str(c) for c in shape_of(name)) + ']\n'
         write('ConfirmShape.lean', text + 'end Rj.Generated\n')
 
